@@ -58,6 +58,20 @@ Proof.
   destruct (sym_eqb e "eagain"), (sym_eqb e "eintr"), (sym_eqb e "econnreset"), (sym_eqb e "econnaborted"); reflexivity.
 Qed.
 
+(* the queue each asynchronous request of the model goes to is the one the declared priority selects *)
+Lemma async_request_priorities s cid d segs cb :
+  apply_async s ("async", [ASym "write"; AInt cid; ABytes d; cb])
+    = Some (set_flag (enqueue s (is_low_of "conn.AsyncWrite") (TAsyncWrite cid d (flag_of cb))) true) /\
+  apply_async s ("async", ASym "writev" :: AInt cid :: cb :: segs)
+    = Some (set_flag (enqueue s (is_low_of "conn.AsyncWritev") (TAsyncWritev cid (segs_of segs) (flag_of cb))) true) /\
+  apply_async s ("async", [ASym "wake"; AInt cid; cb])
+    = Some (set_flag (enqueue s (is_low_of "conn.Wake") (TWake cid (flag_of cb))) true) /\
+  apply_async s ("async", [ASym "close"; AInt cid; cb])
+    = Some (set_flag (enqueue s (is_low_of "conn.Close") (TClose cid (flag_of cb))) true) /\
+  apply_async s ("async", [ASym "exec"; AInt cid])
+    = Some (set_flag (enqueue s (is_low_of "eventloop.Execute") TExec) true).
+Proof. repeat split; reflexivity. Qed.
+
 (* closing `pio_run fuel <generated program> cid ev w = process_io fuel cid ev w`:
    both sides are the same cascade of tests on `has ev <mask>` and `c_opened`; the
    masks of the program are literals, the model's are sums of EV_* constants *)
